@@ -390,6 +390,43 @@ spec.contract(
     loops=[LoopSpec(('treatment_geos_combination', 'it'), invariants=[])])
 spec.contracts[CLS + '.treatment_group_generator'].elem = TSet()
 
+SS = z3.SetSort(I)
+
+
+def tgg_spec(ga, n, T):
+  """T is a treatment group of size n: the fixed geos plus a set of
+  n - |fixed| further treatment-eligible geos."""
+  fx = S(ga.t_fixed)
+  return z3.And(z3.IsSubset(fx, T), z3.IsSubset(T, S(ga.t)),
+                cardlemmas.card(z3.SetDifference(T, fx)) ==
+                n - cardlemmas.card(fx))
+
+
+def _tgg_exact(s):
+  T = z3.Const('T!tgg', SS)
+  return z3.ForAll([T], z3.IsMember(T, S(s.yielded)) ==
+                   tgg_spec(GA(s), N(s.n), T))
+
+
+def _tgg_inv(s):
+  ga = GA(s)
+  fx = S(ga.t_fixed)
+  T = z3.Const('T!tgi', SS)
+  return z3.ForAll([T], z3.IsMember(T, S(s.yielded)) == z3.And(
+      z3.IsSubset(fx, T),
+      z3.IsMember(z3.SetDifference(T, fx), S(s.visited))))
+
+
+from mmverif.engine.specs import clauses as _mkclauses  # noqa: E402
+_c = spec.contracts[CLS + '.treatment_group_generator']
+_c.gen_post = _mkclauses([
+    ('C11 exactly the treatment groups of the requested size are yielded: '
+     'fixed geos plus any n - |fixed| further treatment-eligible geos',
+     _tgg_exact, ('C11', 'C03'))], ('C11',))
+_c.loops = [LoopSpec(('treatment_geos_combination', 'it'), invariants=[
+    ('groups yielded so far are the fixed geos plus the combinations visited',
+     _tgg_inv, ('C11', 'C03'))])]
+
 
 def _cgg_sizes(s):
   ga = GA(s)
@@ -419,6 +456,68 @@ spec.contract(
         LoopSpec(('control_geos', 'it'), invariants=[]),
     ])
 spec.contracts[CLS + '.control_group_generator'].elem = TSet()
+
+
+def _cgg_sets(s):
+  ga = GA(s)
+  T = S(s.treatment_group)
+  fixed = z3.SetUnion(S(ga.c_fixed), z3.SetDifference(S(ga.ct), T))
+  possible = z3.SetDifference(S(ga.c), T)
+  return fixed, possible
+
+
+def _cgg_shape(s, C):
+  """C is the fixed control geos plus further control-eligible geos outside
+  the treatment group, and is not empty; its size."""
+  fixed, possible = _cgg_sets(s)
+  size = cardlemmas.card(fixed) + cardlemmas.card(z3.SetDifference(C, fixed))
+  shape = z3.And(z3.IsSubset(fixed, C), z3.IsSubset(C, possible),
+                 z3.Or(size > cardlemmas.card(fixed),
+                       fixed != z3.EmptySet(I)))
+  return shape, size
+
+
+def _cgg_exact(s):
+  C = z3.Const('C!cgg', SS)
+  shape, size = _cgg_shape(s, C)
+  return z3.ForAll([C], z3.IsMember(C, S(s.yielded)) == z3.And(
+      shape, ctl_size_ok(s, GA(s), size, Card(s.treatment_group))))
+
+
+def _cgg_outer_inv(s):
+  C = z3.Const('C!cgo', SS)
+  shape, size = _cgg_shape(s, C)
+  return z3.ForAll([C], z3.IsMember(C, S(s.yielded)) == z3.And(
+      shape, z3.IsMember(size, S(s.visited))))
+
+
+def _cgg_inner_inv(s):
+  C = z3.Const('C!cgi', SS)
+  shape, size = _cgg_shape(s, C)
+  fixed, _ = _cgg_sets(s)
+  return z3.ForAll([C], z3.IsMember(C, S(s.yielded)) == z3.And(
+      shape, z3.Or(
+          z3.IsMember(size, S(s.sizes_done)),
+          z3.And(size == N(s.n_control_geos),
+                 z3.IsMember(z3.SetDifference(C, fixed), S(s.visited))))))
+
+
+_c = spec.contracts[CLS + '.control_group_generator']
+_c.gen_post = _mkclauses([
+    ('C11 exactly the control groups of an admissible size are yielded: the '
+     'fixed control geos plus further control-eligible geos outside the '
+     'treatment group, not empty', _cgg_exact, ('C11', 'C03'))], ('C11',))
+_c.loops = [
+    LoopSpec(('n_control_geos',
+              'self._control_group_size_generator(n_treatment_geos)'),
+             invariants=[('groups yielded so far are those of the sizes '
+                          'visited', _cgg_outer_inv, ('C11', 'C03'))],
+             export_visited='sizes_done'),
+    LoopSpec(('control_geos', 'it'),
+             invariants=[('groups yielded so far: sizes done, plus the '
+                          'combinations visited for the current size',
+                          _cgg_inner_inv, ('C11', 'C03'))]),
+]
 
 # ---------------------------------------------------------------------------
 # constraint predicates
